@@ -10,8 +10,8 @@ Import ListNotations.
    [inits]: empty; 5 instructions / 2 jump entries ending in EndExpression;
    9 / 4 ending in JumpTo) gives the code built alone moved by the two table
    lengths, referring to its own jump entries and instructions only -- unless
-   the program is the empty program (C20-K2), compiles to nothing after an
-   EndExpression (C20-K1) or has an empty nested body (C05-K1) *)
+   the program is the empty program (C20-K2) (or the tree is in class C05-K2,
+   which the parser does not produce) *)
 Theorem C20_relocation_triples_bounded_3 : forall a b c init, In init inits -> relocates [a; b; c] init.
 Proof. exact C20_relocation_triples_bounded_3_proof. Qed.
 Print Assumptions C20_relocation_triples_bounded_3.
@@ -23,16 +23,18 @@ Print Assumptions C20_relocation_reduced_bounded_5.
 
 (* the witnesses: where the terminator-elision rule reads the previous
    program's last instruction, and the empty program's entry *)
-Theorem C20_K1_refuted :
-  exists root nodes t r r0,
-    parse k1b_tokens = Ok (root, nodes) /\ tree_of nodes root = Some t /\ Known_C20_K1 k1b_init t /\
-    build nodes k1b_init lit_all (build_fuel nodes) root = Ok r /\
-    build nodes empty_init lit_all (build_fuel nodes) root = Ok r0 /\
-    relocated k1b_init (code_of_build r0) (code_of_build r) = false /\
-    own_code k1b_init (code_of_build r) = false /\
-    elides_across k1b_init (code_of_build r0) (code_of_build r) = true.
-Proof. exact K1_refuted20. Qed.
-Print Assumptions C20_K1_refuted.
+(* regression: the former finding C20-K1 (`( )` built after a program ending in
+   EndExpression emitted nothing; repaired in build.rs, commit b7aaffe): the
+   shared build is now the alone build, relocated *)
+Theorem C20_K1_repaired :
+  build (snd k1b_p) empty_init lit_all (build_fuel (snd k1b_p)) (fst k1b_p) = Ok k1_alone /\
+  build (snd k1b_p) k1b_init lit_all (build_fuel (snd k1b_p)) (fst k1b_p) = Ok k1b_r /\
+  instrs (fst k1_alone) = [(I_EndExpression, ONone)] /\ jumps (fst k1_alone) = [0] /\
+  instrs (fst k1b_r) = [(I_EndExpression, ONone)] /\ jumps (fst k1b_r) = [2] /\ snd k1b_r = 1 /\
+  relocated k1b_init (code_of_build k1_alone) (code_of_build k1b_r) = true /\
+  own_code k1b_init (code_of_build k1b_r) = true.
+Proof. exact K1_repaired20. Qed.
+Print Assumptions C20_K1_repaired.
 
 Theorem C20_K2_refuted :
   exists r, build [] k1b_init lit_all (build_fuel []) 0 = Ok r /\
@@ -61,7 +63,7 @@ Print Assumptions C20_own_jump_refs_all_trees.
    compiler; see Proofs/C20 for what is proved of them *)
 Definition C20_frame_full_statement : Prop :=
   forall nodes root t init lit r,
-    tree_of nodes root = Some t -> ~ Known_C05_K1 init t -> ~ Known_C05_K2 t ->
+    tree_of nodes root = Some t -> ~ Known_C05_K2 t ->
     compile init lit t = Ok r -> own_code init (code_of_compile r) = true.
 
 (* proved: every jump operand, expression value and the reported entry name jump
@@ -82,23 +84,23 @@ Theorem C20_relocation_all_trees : forall init lit t,
 Proof. exact compile_shift. Qed.
 Print Assumptions C20_relocation_all_trees.
 
-(* the last instruction L is read only to decide whether the EndExpression of a
-   first body that emitted nothing is a repetition: outside C20-K1 the build is
-   the build into the EMPTY data object, relocated *)
+(* the last instruction L of the earlier content is never decisive: a first body
+   that emitted nothing has its entry at the end of the stream, so its
+   EndExpression is emitted whatever L is -- for EVERY tree and initial state
+   the build is the build into the EMPTY data object, relocated *)
 Definition C20_relocation_full_statement : Prop :=
   forall t init lit,
-    ~ Known_C20_K1 init t ->
     compile init lit t = shRes (shR init) (compile empty_init lit t).
 
 Theorem C20_relocation_full : C20_relocation_full_statement.
 Proof. exact C20_relocation_full_proof. Qed.
 Print Assumptions C20_relocation_full.
 
-(* ... and outside C05-K1 / C05-K2 (no placeholder survives) that is exactly
+(* ... and outside C05-K2 (no placeholder survives) that is exactly
    Spec.Reloc.relocated *)
 Theorem C20_relocated_full : forall nodes root t init lit r r0,
   tree_of nodes root = Some t ->
-  ~ Known_C05_K1 init t -> ~ Known_C05_K2 t ->
+  ~ Known_C05_K2 t ->
   compile init lit t = Ok r -> compile empty_init lit t = Ok r0 ->
   relocated init (code_of_compile r0) (code_of_compile r) = true.
 Proof. exact C20_relocated_full_proof. Qed.
@@ -106,7 +108,7 @@ Print Assumptions C20_relocated_full.
 
 (* ---- directly on BuilderWL.build (by compile_agrees_full, Properties/C05.v) ---- *)
 Theorem C20_frame_full_builder : forall nodes root t init lit fuel r,
-  tree_of nodes root = Some t -> ~ Known_C05_K1 init t -> ~ Known_C05_K2 t ->
+  tree_of nodes root = Some t -> ~ Known_C05_K2 t ->
   build nodes init lit fuel root = Ok r -> own_code init (code_of_build r) = true.
 Proof. exact C20_frame_full_builder_proof. Qed.
 Print Assumptions C20_frame_full_builder.
@@ -122,7 +124,7 @@ Print Assumptions C20_own_jump_refs_builder.
    build of the same tree into the empty object (any fuel for either) are
    related by Spec.Reloc.relocated *)
 Theorem C20_relocated_full_builder : forall nodes root t init lit fuel fuel0 r r0,
-  tree_of nodes root = Some t -> ~ Known_C05_K1 init t -> ~ Known_C05_K2 t ->
+  tree_of nodes root = Some t -> ~ Known_C05_K2 t ->
   build nodes init lit fuel root = Ok r -> build nodes empty_init lit fuel0 root = Ok r0 ->
   relocated init (code_of_build r0) (code_of_build r) = true.
 Proof. exact C20_relocated_full_builder_proof. Qed.
@@ -133,7 +135,7 @@ Print Assumptions C20_relocated_full_builder.
 Theorem C20_relocated_full_parsed : forall toks root nodes,
   parse toks = Ok (root, nodes) -> nodes <> [] ->
   exists t, tree_of nodes root = Some t /\
-    forall init lit fuel fuel0 r r0, ~ Known_C05_K1 init t -> ~ Known_C05_K2 t ->
+    forall init lit fuel fuel0 r r0, ~ Known_C05_K2 t ->
       build nodes init lit fuel root = Ok r -> build nodes empty_init lit fuel0 root = Ok r0 ->
       relocated init (code_of_build r0) (code_of_build r) = true /\ own_code init (code_of_build r) = true.
 Proof. exact C20_relocated_full_parsed_proof. Qed.
